@@ -531,6 +531,9 @@ func runWorld(run *rep.Run, rng *rand.Rand, eng, bal string, id int) {
 	}
 	// model scope: conservation (in this snapshot the engines never feed the per-model counters;
 	// the component itself is exercised in modelScope below)
+	if len(col.GetModelStats()) == 0 && ty.sent > 0 {
+		run.Count("observation_worlds_whose_per_model_counters_stayed_empty", 1)
+	}
 	for m, ms := range col.GetModelStats() {
 		if ms.TotalRequests != ms.SuccessfulRequests+ms.FailedRequests {
 			run.Violation("C19/model/not-conserved", fmt.Sprintf("model %s: total %d != %d + %d", m, ms.TotalRequests, ms.SuccessfulRequests, ms.FailedRequests), wit(map[string]any{}))
